@@ -132,9 +132,9 @@ int main(int argc, char** argv) {
   bfs.push_back(PqCase<galois::ThreadSafeOrderedSet<int>, true, std::less<int>,
                        true>::make("ThreadSafeOrderedSet<int>", 5, 7));
   bfs.push_back(PqCase<galois::MinHeap<int>, false, std::less<int>,
-                       false>::make("MinHeap<int>", 3, 4));
+                       false>::make("MinHeap<int>", 2, 3));
   bfs.push_back(PqCase<galois::ThreadSafeOrderedSet<int>, true, std::less<int>,
-                       false>::make("ThreadSafeOrderedSet<int>", 3, 4));
+                       false>::make("ThreadSafeOrderedSet<int>", 2, 3));
   // ---- insert bag -------------------------------------------------------------
   bfs.push_back(InsertBagCase<56>::make(4, 6));
   bfs.push_back(InsertBagCase<64>::make(4, 7));
@@ -175,6 +175,27 @@ int main(int argc, char** argv) {
     c.run      = probe_run;
     c.describe = [](uint64_t i, bool) { return std::string(PROBES[i].what); };
     en.push_back(c);
+  }
+  // Watchdog: a history on which the library spins forever (it happens:
+  // ThreadSafeOrderedSet::remove on an empty set) must end as a crash verdict
+  // for that history instead of hanging the level.  Only armed in workers.
+  for (auto& c : bfs) {
+    auto inner = c.run;
+    c.run      = [inner](const std::vector<int>& h) -> std::string {
+      bool arm = getpid() != g_main_pid || g_replay_mode;
+      if (arm)
+        alarm(30);
+      try {
+        std::string k = inner(h);
+        if (arm)
+          alarm(0);
+        return k;
+      } catch (...) {
+        if (arm)
+          alarm(0);
+        throw;
+      }
+    };
   }
   return sx::sx_main(argc, argv, "C14", bfs, en);
 }
